@@ -486,6 +486,9 @@ func (c *Cluster) respond(q *Req, v replyVariant) {
 			if cn.bucket.vbmap[vb.id][0] != cn.node {
 				continue
 			}
+			if w.cfg.SeqnoOmitVb == vb.id+1 {
+				continue // the vBucket is momentarily active nowhere (takeover): no node lists it
+			}
 			hs := vb.high
 			if cid >= 0 {
 				hs = 0
